@@ -420,6 +420,71 @@ func TestCheck(t *testing.T) {
 		return nil
 	})
 
+	// (a'') handle histories: calls on open handles (two slots: a directory and a file, reopened
+	// at will) interleaved with namespace changes to what the handles refer to - entries
+	// removed, added or renamed behind a directory cursor, the file truncated, unlinked or
+	// replaced under an offset. Stale cursors and snapshots are where indexes go out of range.
+	dirOps := []fsx.Op{}
+	for _, n := range []int{-1, 0, 1, 2, 3} {
+		dirOps = append(dirOps, fsx.Op{K: "FReadDir", H: 0, N: n}, fsx.Op{K: "FReaddirnames", H: 0, N: n})
+	}
+	dirOps = append(dirOps, fsx.Op{K: "FSeek", H: 0, Off: 0, Whence: 0}, fsx.Op{K: "FStat", H: 0}, fsx.Op{K: "FClose", H: 0},
+		fsx.Op{K: "Open", P: "/w/a", Flag: os.O_RDONLY, H: 0}, fsx.Op{K: "Open", P: "/w/a", Flag: os.O_RDONLY, H: 0}, fsx.Op{K: "Open", P: "/w", Flag: os.O_RDONLY, H: 0})
+	fileOps := []fsx.Op{
+		{K: "FRead", H: 1, N: 4}, {K: "FRead", H: 1, N: 64}, {K: "FWrite", H: 1, Data: "abc"}, {K: "FReadAt", H: 1, N: 4, Off: 8}, {K: "FWriteAt", H: 1, Data: "z", Off: 12},
+		{K: "FSeek", H: 1, Off: 0, Whence: 2}, {K: "FSeek", H: 1, Off: -3, Whence: 1}, {K: "FSeek", H: 1, Off: 7, Whence: 0}, {K: "FTruncate", H: 1, Size: 3}, {K: "FTruncate", H: 1, Size: 0},
+		{K: "FStat", H: 1}, {K: "FSync", H: 1}, {K: "FClose", H: 1}, {K: "FReadAll", H: 1},
+		{K: "Open", P: "/w/f", Flag: os.O_RDWR, H: 1}, {K: "Open", P: "/w/f", Flag: os.O_RDWR | os.O_APPEND, H: 1}, {K: "Open", P: "/w/g", Flag: os.O_RDONLY, H: 1}, {K: "Open", P: "/w/a/p", Flag: os.O_RDWR | os.O_CREATE, Perm: 0o644, H: 1},
+	}
+	nsOps := []fsx.Op{
+		{K: "Remove", P: "/w/a/p"}, {K: "Remove", P: "/w/a/q"}, {K: "RemoveAll", P: "/w/a/x"}, {K: "WriteFile", P: "/w/a/r", Data: "r", Perm: 0o644}, {K: "Mkdir", P: "/w/a/s", Perm: 0o755},
+		{K: "Rename", P: "/w/a/p", P2: "/w/a/t"}, {K: "Rename", P: "/w/a/q", P2: "/w/q"}, {K: "RemoveAll", P: "/w/a"}, {K: "Mkdir", P: "/w/a", Perm: 0o755}, {K: "Rename", P: "/w/a", P2: "/w/b"},
+		{K: "Truncate", P: "/w/f", Size: 0}, {K: "Truncate", P: "/w/f", Size: 2}, {K: "Remove", P: "/w/f"}, {K: "Remove", P: "/w/g"}, {K: "WriteFile", P: "/w/f", Data: "new content", Perm: 0o644},
+		{K: "Rename", P: "/w/a/p", P2: "/w/f"}, {K: "Open", P: "/w/f", Flag: os.O_WRONLY | os.O_TRUNC, H: 2}, {K: "Chmod", P: "/w/a", Perm: 0}, {K: "Chmod", P: "/w/f", Perm: 0},
+	}
+	c.Rapid("handle-histories", c.Pick(4000, 120000), func(t *rapid.T) *vt.Failure {
+		kind := rapid.SampledFrom(fsKinds).Draw(t, "fs")
+		all := append(advPrefix(strings.Contains(kind, "MemFS") && !strings.HasPrefix(kind, "BasePathFS")),
+			fsx.Op{K: "WriteFile", P: "/w/a/p", Data: "pp", Perm: 0o644}, fsx.Op{K: "WriteFile", P: "/w/a/q", Data: "qq", Perm: 0o644},
+			fsx.Op{K: "Open", P: "/w/a", Flag: os.O_RDONLY, H: 0}, fsx.Op{K: "Open", P: "/w/f", Flag: os.O_RDWR, H: 1})
+		shrunk, listed := false, false
+		for n := rapid.IntRange(2, 14).Draw(t, "n"); n > 0; n-- {
+			var o fsx.Op
+			switch rapid.IntRange(0, 5).Draw(t, "group") {
+			case 0, 1:
+				o = rapid.SampledFrom(dirOps).Draw(t, "dir")
+				if strings.HasPrefix(o.K, "FRead") {
+					if shrunk && listed {
+						c.Label("hh:list-after-shrink-behind-cursor")
+					}
+					listed = true
+				}
+			case 2, 3:
+				o = rapid.SampledFrom(fileOps).Draw(t, "file")
+			default:
+				o = rapid.SampledFrom(nsOps).Draw(t, "ns")
+				if o.K == "Remove" || o.K == "RemoveAll" || o.K == "Rename" {
+					shrunk = listed
+				}
+			}
+			all = append(all, o)
+		}
+		v, err := build(kind, nil)
+		if err != nil {
+			return nil
+		}
+		outs, verdict, nh := runSingleR(v, all)
+		c.Eval(1)
+		c.Label("hh-fs:" + kind)
+		if verdict.Steps > 1 && shrunk {
+			c.NonTrivial(vt.Hash64(kind, fmt.Sprint(all)))
+		}
+		if dev := judge(kind, "mixed", all, outs, verdict, nh); dev != nil {
+			return &vt.Failure{Dev: dev, Replay: Case{Kind: "call", FS: kind, Ops: all}}
+		}
+		return nil
+	})
+
 	// (b) schedules: every execution explored for C06 is a C07 case
 	maxPre := c.Pick(2, 3)
 	for _, kind := range []string{"MemFS", "OrefaFS"} {
@@ -449,6 +514,40 @@ func TestCheck(t *testing.T) {
 			}
 		}
 		c.Extra("schedules_"+kind, fmt.Sprintf("%d scheduled executions of 2-worker programs, pre-emption bound %d", execs, maxPre))
+	}
+
+	// (b-root) the same for calls whose operands sit directly in the root directory (MemFS only:
+	// OrefaFS cannot address its root): the root is the one directory that is the ancestor
+	// of everything, has no parent of its own and whose path ends with the separator
+	{
+		wf := func(p, d string) fsx.Op { return fsx.Op{K: "WriteFile", P: p, Data: d, Perm: 0o644} }
+		prefix := []fsx.Op{{K: "Mkdir", P: "/w/a", Perm: 0o755}, wf("/w/a/x", "AX"), wf("/x0", "X0"), {K: "Mkdir", P: "/r", Perm: 0o755}, wf("/r/x", "RX")}
+		lsdir := func(p string) []fsx.Op {
+			return []fsx.Op{{K: "Open", P: p, Flag: os.O_RDONLY, H: 1}, {K: "FReadDir", H: 1, N: -1}, {K: "FClose", H: 1}}
+		}
+		rootCalls := [][]fsx.Op{
+			{{K: "Rename", P: "/w/a/x", P2: "/y"}}, {{K: "Rename", P: "/x0", P2: "/w/a/x0"}}, {{K: "Rename", P: "/r/x", P2: "/x0"}}, {{K: "Rename", P: "/w/a", P2: "/a2"}},
+			{{K: "Rename", P: "/r", P2: "/w/a/r"}}, {{K: "Link", P: "/w/a/x", P2: "/lx"}}, {{K: "Link", P: "/x0", P2: "/r/lx"}},
+			lsdir("/"), lsdir("/w"), lsdir("/r"),
+			{{K: "Mkdir", P: "/m", Perm: 0o755}}, {{K: "Remove", P: "/x0"}}, {{K: "RemoveAll", P: "/r"}}, {{K: "RemoveAll", P: "/w"}}, {{K: "Stat", P: "/"}}, {{K: "ReadDir", P: "/"}},
+			{{K: "Open", P: "/n", Flag: os.O_WRONLY | os.O_CREATE | os.O_EXCL, Perm: 0o644, H: 0}, {K: "FClose", H: 0}}, {{K: "MkdirAll", P: "/r/m/n", Perm: 0o755}},
+		}
+		i, execs := 0, 0
+		for a, c1 := range rootCalls {
+			for b, c2 := range rootCalls {
+				if b < a {
+					continue
+				}
+				i++
+				if i%c.NShards != c.Shard {
+					continue
+				}
+				p := conc.Program{FS: "MemFS", Prefix: prefix, Workers: [][]fsx.Op{c1, c2}}
+				n, _ := exploreConc(c, p, maxPre, c.Pick(200, 2000))
+				execs += n
+			}
+		}
+		c.Extra("schedules_root_MemFS", fmt.Sprintf("%d scheduled executions of 2-worker programs on root-level operands, pre-emption bound %d", execs, maxPre))
 	}
 
 	// (b') 3 workers, random schedules
